@@ -2,3 +2,4 @@
 pub mod explore;
 pub mod json;
 pub mod report;
+pub mod wide;
